@@ -232,7 +232,13 @@ let gen_check out =
   Printf.fprintf out "unread_fields %b [%s]\n" (unread = [])
     (String.concat "," (List.map (fun (t, f) -> string_of_coq t ^ "." ^ string_of_coq f) unread));
   let bs = bad_separators Models.sql_prog in
-  Printf.fprintf out "separators_ok %b [%s]\n" (bs = []) (names bs)
+  Printf.fprintf out "separators_ok %b [%s]\n" (bs = []) (names bs);
+  let pc = List.map coq_of_string ["Parser"; "Lexer"; "File"] in
+  Printf.fprintf out "globals_ok %b vars=%d writes=[%s] go=%d imports=%d receiver_fields=%d\n"
+    (globals_ok Models.global_writes Models.go_statements Models.concurrency_imports Models.receiver_field_writes pc)
+    (List.length Models.global_vars)
+    (String.concat "," (List.map (fun ((((p, f), v), h), w) -> string_of_coq f ^ ":" ^ string_of_coq v ^ ":" ^ string_of_coq h ^ "@" ^ string_of_coq w) Models.global_writes))
+    (List.length Models.go_statements) (List.length Models.concurrency_imports) (List.length Models.receiver_field_writes)
 
 let run (args : string list) : bool =
   let out = stdout in
